@@ -121,6 +121,7 @@ type Ctx struct {
 	known     []knownEntry
 	obligs    []*Oblig
 	funcsSeen map[string]bool
+	cfg       string // "" = default build configuration; else the name of the extra configuration (thorough tier)
 }
 
 func (c *Ctx) thorough() bool { return c.tier == "thorough" }
